@@ -841,6 +841,7 @@ func scanRealPath(f *component_definition.Field) string {
 
 type scanResult struct {
 	nprops  map[string]int // per field path: properties of writing processors (all but the recorder's)
+	valProp map[string][]scanSeen // per field path: the properties with tag `value` (what a `prop` shorthand becomes)
 	obs     string
 	outcome string // ok | err | panic
 	pre     map[string]string
@@ -860,7 +861,7 @@ func scanRunX(kids []*scanNode, static any, extra string) *scanResult {
 
 // scanRunY: ordRec = the recorder is the Ordered one (processor-holder runs and the runs of their plain twins)
 func scanRunY(kids []*scanNode, static any, extra string, ordRec bool) *scanResult {
-	res := &scanResult{pre: map[string]string{}, post: map[string]string{}, nprops: map[string]int{}}
+	res := &scanResult{pre: map[string]string{}, post: map[string]string{}, nprops: map[string]int{}, valProp: map[string][]scanSeen{}}
 	var root reflect.Value
 	if pan := hx.Guard(func() {
 		if static != nil {
@@ -935,6 +936,9 @@ func scanRunY(kids []*scanNode, static any, extra string, ordRec bool) *scanResu
 	for _, p := range props {
 		if p.Tag != scanCustomTag {
 			res.nprops[scanRealPath(p.Field)]++
+		}
+		if p.Tag == "value" {
+			res.valProp[scanRealPath(p.Field)] = append(res.valProp[scanRealPath(p.Field)], scanSeen{path: scanRealPath(p.Field), tagStr: p.TagStr, args: propArgs(p)})
 		}
 		lines = append(lines, scanRealPath(p.Field)+"/"+p.Tag+"/"+string(p.PropertyType)+"/"+hx.Hex(p.TagStr)+"/"+showArgsMap(propArgs(p)))
 	}
@@ -1058,6 +1062,28 @@ func scanOracleSingle(r *scanResult) string {
 			if val, ok := scanValueAsWritten(tv); ok && s.tagStr != val {
 				return fmt.Sprintf("FAIL scan-custom-value %s tag %s:%q: processor got value %q, the tag says value %q", s.path, scanCustomTag, tv, s.tagStr, val)
 			}
+		}
+	}
+	// (vii, tenth round) the `prop` shorthand in the structured form `key,name=item…,flag`: the value scanner turns it into a
+	// `value` property whose text is `${key}` and whose arguments are ALL the arguments written (plus the scanner's default
+	// `Required` flag when the tag does not say) — read off the tag text by the harness itself
+	for _, u := range r.units {
+		st := reflect.StructTag(u.n.tagText())
+		tv, ok := st.Lookup("prop")
+		if _, hasValue := st.Lookup("value"); !ok || hasValue || !scanExported(u.n.name) || len(r.valProp[u.path]) != 1 {
+			continue
+		}
+		ps, ok := scanParseStruct(tv)
+		if !ok || strings.ContainsAny(ps.val, " \t") {
+			continue
+		}
+		want := ps.argMap()
+		if _, said := want["Required"]; !said {
+			want["Required"] = nil
+		}
+		got := r.valProp[u.path][0]
+		if g, w := showArgsMap(scanNormArgs(got.args)), showArgsMap(want); got.tagStr != "${"+ps.val+"}" || g != w {
+			return fmt.Sprintf("FAIL scan-prop-args %s tag prop:%q became value %q args %s, the tag says ${%s} args %s", u.path, tv, got.tagStr, g, ps.val, w)
 		}
 	}
 	// (v) structured custom tags: the processor was handed the value and the arguments the tag text says
